@@ -266,8 +266,8 @@ func run(c *hx.Ctx) {
 				res.Count("calls-with-a-second-call-started-from-the-reorg-callback")
 			}
 		}
-		if o.finding == nil && cs.BlindFirst > 0 {
-			if f, ran := runBlind(t, cs, cs.BlindFirst-1); ran {
+		if o.finding == nil && cs.BlindFirst > 0 && o.nd != nil {
+			if f, ran := runBlind(t, cs, cs.BlindFirst-1, o.nd.Sim.CM.Tip().ID); ran {
 				res.Count("unobserved-runs (nothing read between the steps)")
 				res.Count("first-read-after-unobserved-run:" + firstReads[(cs.BlindFirst-1)%len(firstReads)])
 				if f != nil {
@@ -405,6 +405,30 @@ func run(c *hx.Ctx) {
 		if i%3 == 0 && cs.Checkpoint == 0 && !cs.Concurrent {
 			cs.BlindFirst = 1 + (i/3)%len(firstReads)
 		}
+		doCase(cs, true)
+	}
+	// flip-flop plans: the node leaves a branch after a few of its blocks and later returns to
+	// it, re-applying blocks it has stored and then applying new ones (v1 spends of old outputs
+	// need a store-supplied proof there); each is run observed and unobserved
+	m := c.Scale(40, 800)
+	for i := 0; i < m; i++ {
+		r := c.R.Fork()
+		cs := Case{Seed: r.U64(), Regime: []int{0, 1, 3, 4}[i%4], Opts: chaingen.GenOpts{Blocks: 8 + r.Intn(12), Branchiness: 2 + r.Intn(3), TxPerBlock: 1 + r.Intn(5)}}
+		if i%2 == 1 {
+			cs.Opts.Kinds = []string{"v1-transfer", "v1-transfer", "v1-siafund", "v1-form", "v1-proof", "v1-revise"}
+		}
+		var t *chaingen.Tree
+		func() {
+			defer func() { recover() }()
+			t = cs.Tree()
+		}()
+		if t == nil {
+			doCase(cs, false)
+			continue
+		}
+		cs.Plan = flipFlopPlan(rng.New(cs.Seed^0x5bd1e995), t)
+		cs.BlindFirst = 1 + i%len(firstReads)
+		res.Count("flip-flop-plans (a branch is left and returned to)")
 		doCase(cs, true)
 	}
 	res.WriteCases("Run.Run_C02", cases)
